@@ -48,7 +48,7 @@ def plan(tier, seed):
         require=['scripts', 'steps', 'declarations', 'idempotent_checks',
                  'conflicts_refused', 'undeclare_calls',
                  'undeclare_refused', 'held_across_change',
-                 'quiescent_checks'],
+                 'quiescent_checks', 'declare_calls_with_repeated_names'],
         assumptions=['add_var(name, level) is exercised with the '
                      "variable's own level, the next bottom level or a "
                      'conflicting one (explicit levels leaving a gap are '
@@ -288,6 +288,33 @@ def random_(ctx, spec):
         else:
             sc.undeclare(rng.sample(unused, rng.randint(1, len(unused))))
         return ('undeclare',)
+    def s_declare_many():
+        # one `declare` call with several names: declared ones, new ones,
+        # and names that occur twice in the call; the same as declaring
+        # them one after the other
+        known = list(w.raw.vars)
+        new = []
+        if len(w.sp.names) < 7:
+            new = [next(w.fresh_names)
+                   for _ in range(rng.randint(1, min(2, 7 - len(w.sp.names))))]
+        args = new + rng.sample(known, min(len(known), rng.randint(0, 2)))
+        args += rng.sample(args, rng.randint(1, len(args))) if args else []
+        rng.shuffle(args)
+        if not args:
+            return ('declare-many-skip',)
+        want = dict(w.raw.vars)
+        for v in args:
+            want.setdefault(v, len(want))
+        w.bdd.declare(*args)
+        ctx.counters['declare_calls_with_repeated_names'] += 1
+        if dict(w.raw.vars) != want:
+            raise Violation('declare', 'differs-from-one-by-one-declaration',
+                            dict(args=args, got=dict(w.raw.vars), want=want))
+        first_new = [v for v in dict.fromkeys(args) if v in new]
+        if first_new:
+            w._respace(list(w.sp.names) + first_new)
+        return ('declare-many', tuple(args))
+    w.s_declare_many = s_declare_many
     w.s_conflict = s_conflict
     w.s_redeclare = s_redeclare
     w.s_undeclare_bad = s_undeclare_bad
@@ -297,7 +324,7 @@ def random_(ctx, spec):
                 reorder_to=1, declare=7,
                 undeclare_subset=6 if kind == 'bdd' else 0, conflict=3,
                 redeclare=3, undeclare_bad=3 if kind == 'bdd' else 0,
-                canon=2, clone=2 if kind == 'bdd' else 0)
+                canon=2, clone=2 if kind == 'bdd' else 0, declare_many=3)
     for k in range(spec['steps']):
         names_before = set(w.raw.vars)
         held = bool(w.pool)
